@@ -73,7 +73,7 @@ func newRecorder() *Recorder {
 	return &Recorder{
 		counts:  map[[2]string]int{},
 		release: make(chan struct{}),
-		bgMarks: []string{"RemapResourceAndLog", "doSendNodeMetrics", "InitMetrics", "SendNodeMetrics", "engine/factory.(*EngineCache)", "engine/factory.validateEngine", "selfmon"},
+		bgMarks: []string{"RemapResourceAndLog", "doRemapResource", "doSendNodeMetrics", "InitMetrics", "SendNodeMetrics", "engine/factory.(*EngineCache)", "engine/factory.validateEngine", "selfmon"},
 	}
 }
 
